@@ -14,6 +14,7 @@ import (
 	"time"
 
 	"github.com/sirupsen/logrus"
+	"github.com/taskctl/taskctl/pkg/runner"
 	"github.com/taskctl/taskctl/pkg/scheduler"
 	"github.com/taskctl/taskctl/pkg/task"
 	"github.com/taskctl/taskctl/pkg/variables"
@@ -53,6 +54,7 @@ type Case struct {
 	Direct   bool              `json:"direct"`
 	Repeat   int               `json:"repeat"` // in-process: how often the whole sequence is run
 	CLI      bool              `json:"cli,omitempty"`
+	Mode     string            `json:"mode,omitempty"` // "real": shared task object + real runner
 }
 
 func (c Case) canon() string { b, _ := json.Marshal(c); return string(b) }
@@ -379,6 +381,115 @@ func runCLI(c Case, dir string) error {
 	return nil
 }
 
+// ---- real runner through the Go API: one *task.Task shared by all stages, its dir is a template over a
+// variable that stages override ("{{ .wd }}")
+
+func runReal(c Case, dir string) error {
+	dir, _ = filepath.EvalSymlinks(dir)
+	trace := filepath.Join(dir, "trace")
+	var vparts, eparts []string
+	for _, k := range varKeys {
+		vparts = append(vparts, fmt.Sprintf(`%s={{ if index . "%s" }}{{ index . "%s" }}{{ else }}unset{{ end }}`, k, k, k))
+	}
+	for _, k := range envKeys {
+		eparts = append(eparts, fmt.Sprintf(`%s=${%s:-unset}`, k, k))
+	}
+	cmd := fmt.Sprintf(`printf '%%s\n' "ID={{ index . "stage_id" }} ENV:%s VARS:%s PWD=$(pwd -P)" >> %s`, strings.Join(eparts, ","), strings.Join(vparts, ","), trace)
+	mk := func(d string) string {
+		p := filepath.Join(dir, d)
+		os.MkdirAll(p, 0o755)
+		return p
+	}
+	base := task.FromCommands(cmd)
+	base.Name = "shared"
+	base.Dir = "{{ .wd }}"
+	taskVars := overlay(c.TaskVars, map[string]string{"stage_id": "direct", "wd": mk("wd_task")})
+	base.Env = variables.FromMap(c.TaskEnv)
+	base.Variables = variables.FromMap(taskVars)
+	r, err := runner.NewTaskRunner()
+	if err != nil {
+		return err
+	}
+	r.Stdout, r.Stderr = io.Discard, io.Discard
+	wantDir := map[string]string{"direct": filepath.Join(dir, "wd_task")}
+	build := func(stages []Stage) (*scheduler.ExecutionGraph, error) {
+		var ss []*scheduler.Stage
+		for _, st := range stages {
+			vars := overlay(st.Vars, map[string]string{"stage_id": st.Name})
+			wantDir[st.Name] = filepath.Join(dir, "wd_task")
+			if st.Dir != "" {
+				vars["wd"] = mk("wd_" + st.Name)
+				wantDir[st.Name] = filepath.Join(dir, "wd_"+st.Name)
+			}
+			ss = append(ss, &scheduler.Stage{Name: st.Name, Task: base, Env: variables.FromMap(st.Env), Variables: variables.FromMap(vars), DependsOn: st.Deps})
+		}
+		return scheduler.NewExecutionGraph(ss...)
+	}
+	rep := c.Repeat
+	if rep < 1 {
+		rep = 1
+	}
+	for i := 0; i < rep; i++ {
+		for _, p := range [][]Stage{c.P1, c.P2} {
+			if len(p) == 0 {
+				continue
+			}
+			g, err := build(p)
+			if err != nil {
+				return fmt.Errorf("graph: %v", err)
+			}
+			s := scheduler.NewScheduler(r)
+			hook.SetPause(s, 2*time.Millisecond)
+			if err := s.Schedule(g); err != nil {
+				return fmt.Errorf("schedule: %v", err)
+			}
+		}
+		if c.Direct {
+			if err := r.Run(base); err != nil {
+				return fmt.Errorf("direct run: %v", err)
+			}
+		}
+	}
+	data, _ := os.ReadFile(trace)
+	got := map[string][]string{}
+	for _, l := range strings.Split(strings.TrimSpace(string(data)), "\n") {
+		if f := strings.SplitN(l, " ", 2); len(f) == 2 {
+			got[strings.TrimPrefix(f[0], "ID=")] = append(got[strings.TrimPrefix(f[0], "ID=")], f[1])
+		}
+	}
+	want := func(env, vars map[string]string, wd string) string {
+		return fmt.Sprintf("ENV:%s VARS:%s PWD=%s", dump(env, envKeys), dump(vars, varKeys), wd)
+	}
+	all := append(append([]Stage{}, c.P1...), c.P2...)
+	for _, st := range all {
+		w := want(overlay(c.TaskEnv, st.Env), overlay(c.TaskVars, st.Vars), wantDir[st.Name])
+		g := got[st.Name]
+		if len(g) != rep {
+			return fmt.Errorf("stage %s printed %d lines, want %d; all lines: %q", st.Name, len(g), rep, string(data))
+		}
+		for _, l := range g {
+			if l != w {
+				return fmt.Errorf("stage %s printed %q, want %q (the task's settings overlaid by this stage's only; the task dir is the template {{ .wd }}); all lines: %q", st.Name, l, w, string(data))
+			}
+		}
+	}
+	if c.Direct {
+		w := want(c.TaskEnv, c.TaskVars, wantDir["direct"])
+		for _, l := range got["direct"] {
+			if l != w {
+				return fmt.Errorf("direct run printed %q, want %q (the task's own settings); all lines: %q", l, w, string(data))
+			}
+		}
+		if len(got["direct"]) != rep {
+			return fmt.Errorf("direct run printed %d lines, want %d; all lines: %q", len(got["direct"]), rep, string(data))
+		}
+	}
+	if base.Dir != "{{ .wd }}" {
+		return fmt.Errorf("the task's own dir changed from the template to %q", base.Dir)
+	}
+	return nil
+}
+
 // ---- generator
 
 func genMap(rt *rapid.T, label, who string, keys []string) map[string]string {
@@ -446,6 +557,27 @@ func TestAPI(t *testing.T) {
 	})
 }
 
+// TestReal: the API arrangement (one shared *task.Task) executed by the real runner.
+func TestReal(t *testing.T) {
+	root := t.TempDir()
+	k := 0
+	rapid.Check(t, func(rt *rapid.T) {
+		c := genCase(rt, true)
+		c.CLI = false
+		c.TaskDir = ""
+		c.Mode = "real"
+		drv.Sample(c)
+		record(c)
+		k++
+		dir := filepath.Join(root, fmt.Sprint("r", k))
+		os.MkdirAll(dir, 0o755)
+		defer os.RemoveAll(dir)
+		if err := runReal(c, dir); err != nil {
+			drv.Fail(rt, "real", "", c, "%v; case %s", err, c.canon())
+		}
+	})
+}
+
 func TestCLI(t *testing.T) {
 	root := t.TempDir()
 	k := 0
@@ -473,9 +605,12 @@ func TestReplay(t *testing.T) {
 		t.Fatal(err)
 	}
 	var err error
-	if c.CLI {
+	switch {
+	case c.Mode == "real":
+		err = runReal(c, t.TempDir())
+	case c.CLI:
 		err = runCLI(c, t.TempDir())
-	} else {
+	default:
 		err = runAPI(c)
 	}
 	if err != nil {
